@@ -166,10 +166,26 @@ func (w *World) callersOutside(fd *FrameDecl, allowed map[string]bool) []string 
 		return []string{"!package " + fd.Pkg + " not loaded"}
 	}
 	target := pi.Funcs[fd.Comp]
-	if target == nil {
+	var tobj types.Object
+	if target != nil {
+		tobj = pi.P.TypesInfo.Defs[target.Name]
+	} else {
+		parts := strings.SplitN(fd.Comp, ".", 2)
+		if len(parts) == 2 {
+			if tn := pi.P.Types.Scope().Lookup(parts[0]); tn != nil {
+				if it, ok := tn.Type().Underlying().(*types.Interface); ok {
+					for i := 0; i < it.NumMethods(); i++ {
+						if it.Method(i).Name() == parts[1] {
+							tobj = it.Method(i)
+						}
+					}
+				}
+			}
+		}
+	}
+	if tobj == nil {
 		return []string{"!function " + fd.Comp + " no longer exists"}
 	}
-	tobj := pi.P.TypesInfo.Defs[target.Name]
 	var offenders []string
 	for _, p := range w.Pkgs {
 		info := p.P.TypesInfo
